@@ -2,6 +2,7 @@
 import itertools
 import z3
 from pyvc.api import Contract, contract
+from contracts._frames import query_frame
 from pyvc.values import Obj, NdArr, z
 from pyvc import models
 from pyvc.engine import Closure, LambdaFn, ExternFn
@@ -72,6 +73,7 @@ class FrtFit(Contract):
 
 
 @contract(F + "::FunctionReciprocalTransformer.get_fct_inv", "C13")
+@query_frame("self")
 class FrtInv(Contract):
     variants = NAMES
 
@@ -90,6 +92,7 @@ class FrtInv(Contract):
 
 
 @contract(F + "::FunctionReciprocalTransformer.transform", "C13")
+@query_frame("self")
 class FrtTransform(Contract):
     variants = [(n, hy) for n in NAMES for hy in (True, False)]
 
@@ -207,6 +210,7 @@ class TtrFit(Contract):
 
 
 @contract(T + "::TransformedTargetRegressor2.predict", "C13")
+@query_frame("self")
 class TtrPredict(Contract):
     variants = NAMES
 
@@ -263,6 +267,7 @@ PERMS = [p for m in (2, 3) for p in itertools.permutations(range(m))]
 
 
 @contract(F + "::PermutationReciprocalTransformer.get_fct_inv", "C13")
+@query_frame("self")
 class PermInv(Contract):
     variants = PERMS
     max_paths = 20000
@@ -282,6 +287,7 @@ class PermInv(Contract):
 
 
 @contract(F + "::PermutationReciprocalTransformer.transform", "C13")
+@query_frame("self")
 class PermTransform(Contract):
     """label branch (1-d integer targets of length 2) and probability-column branch"""
     variants = [(p, kind) for p in PERMS for kind in ("labels", "columns")]
@@ -391,6 +397,7 @@ class PermFit(Contract):
 
 # ----------------------------------------------------------------------------- classifier on permuted labels
 @contract(T + "::TransformedTargetClassifier2.classes_", "C13")
+@query_frame("self")
 class Classes(Contract):
     variants = PERMS
     max_paths = 20000
